@@ -686,6 +686,50 @@ def unbound_after_loop(model: Model, fn: FunctionInfo) -> list[Lint]:
     return out
 
 
+def split_unpack(model: Model, fn: FunctionInfo) -> list[Lint]:
+    """``a, b = s.split(d)``: str.split without maxsplit cuts at EVERY occurrence, so the unpacking raises
+    ValueError (too many values) as soon as ``d`` occurs twice - and (not enough values) when it does not occur
+    and no test in front guarantees that it does.  ``s.split(d, 1)`` / ``s.partition(d)`` are the total forms."""
+    out: list[Lint] = []
+    for n in ast.walk(fn.node):
+        if not (isinstance(n, ast.Assign) and len(n.targets) == 1 and isinstance(n.targets[0], (ast.Tuple, ast.List))):
+            continue
+        tg = n.targets[0]
+        if any(isinstance(e, ast.Starred) for e in tg.elts):
+            continue
+        v = n.value
+        if isinstance(v, ast.Call) and isinstance(v.func, ast.Attribute) and v.func.attr in ("split", "rsplit") and v.args:
+            maxsplit = v.args[1] if len(v.args) > 1 else next((k.value for k in v.keywords if k.arg == "maxsplit"), None)
+            k = len(tg.elts)
+            if maxsplit is None or not (isinstance(maxsplit, ast.Constant) and maxsplit.value == k - 1):
+                out.append(Lint("split-unpack", fn, n.lineno, ast.unparse(v.func.value)[:20], f"`{ast.unparse(n)[:70]}` unpacks str.{v.func.attr} without maxsplit={k - 1} into {k} names: the string is cut at every occurrence of the separator, so a value containing it twice raises ValueError (too many values to unpack) - an error of the wrong kind, from every function that goes through here, in every mode"))
+    return out
+
+
+def strip_charset(model: Model, fn: FunctionInfo) -> list[Lint]:
+    """``s.strip("x-")`` / ``s.rstrip("$1")`` / ``s.rstrip(self.delimiter)``: the argument of strip / lstrip / rstrip
+    is a SET of characters, not a prefix or suffix - every leading / trailing character that is in the set goes,
+    however many and in whatever order ('xml'.lstrip('x-') == 'ml', '...obo/RO_0000301'.rstrip('$1') loses the 1).
+    Flagged when the argument reads like a token (a literal of two or more characters with a letter or digit in
+    it, or a name that denotes a separator / prefix / suffix); pure whitespace / bracket sets are what strip is for."""
+    out: list[Lint] = []
+    for n in ast.walk(fn.node):
+        if not (isinstance(n, ast.Call) and isinstance(n.func, ast.Attribute) and n.func.attr in ("strip", "lstrip", "rstrip") and len(n.args) == 1):
+            continue
+        a = n.args[0]
+        token = None
+        if isinstance(a, ast.Constant) and isinstance(a.value, str) and len(a.value) >= 2 and any(ch.isalnum() for ch in a.value):
+            token = repr(a.value)
+        elif isinstance(a, (ast.Name, ast.Attribute)):
+            nm = (a.id if isinstance(a, ast.Name) else a.attr).lower()
+            if any(k in nm for k in ("delim", "sep", "prefix", "suffix")):
+                token = ast.unparse(a)
+        if token:
+            fix = {"strip": "removeprefix / removesuffix", "lstrip": "removeprefix", "rstrip": "removesuffix"}[n.func.attr]
+            out.append(Lint("strip-charset", fn, n.lineno, n.func.attr, f"`{ast.unparse(n)[:60]}`: str.{n.func.attr} takes {token} as a set of characters and removes every leading / trailing character that is in it, not the token once ({fix} does that): values that merely begin / end with one of those characters are cut short"))
+    return out
+
+
 def scan(model: Model, files: set[str] | None = None) -> tuple[list[Lint], int]:
     """All lints for the functions defined in ``files`` (relative paths under src/curies; None = everything)."""
     out: list[Lint] = []
@@ -703,4 +747,6 @@ def scan(model: Model, files: set[str] | None = None) -> tuple[list[Lint], int]:
         out += global_mutable_leak(model, fn)
         out += last_iteration_flag(model, fn)
         out += unbound_after_loop(model, fn)
+        out += split_unpack(model, fn)
+        out += strip_charset(model, fn)
     return out, n
